@@ -4,9 +4,11 @@ the terms the goal mentions (counter-models found this way are only hints: dropp
 import subprocess,re,sys
 f=sys.argv[1]
 lines=open(f).read().replace('(get-model)','').split('\n')
-fa=[i for i,l in enumerate(lines) if l.startswith('(assert') and '(forall' in l and not l.startswith('(assert (not (=> ret')]
+asserts=[i for i,l in enumerate(lines) if l.startswith('(assert')]
+goal_i=asserts[-1]
+fa=[i for i in asserts if '(forall' in lines[i] and i!=goal_i]
 keep=[l for i,l in enumerate(lines) if i not in fa]
-goal=[l for l in keep if l.startswith('(assert (not')][-1]
+goal=lines[goal_i]
 print(goal[:1500])
 terms=sorted(set(re.findall(r'(?<![\w.!@])(?:[A-Za-z_][\w.$]*![0-9]+|p\.\w+)', goal)))
 extra=sys.argv[2:]
